@@ -109,6 +109,7 @@ type FnTrans struct {
 	assumpTerms []string
 	knownRefs map[string]bool
 	strPairs map[string]bool
+	allowedMods map[string]bool // nil: no component-level frame check
 	skCache map[string]string
 	f64bitsCache map[string]string
 	subRefSeen map[string]bool
@@ -1152,6 +1153,17 @@ func (t *FnTrans) Translate() {
 	fn := t.fn
 	t.findLoops()
 	t.escapeAnalysis()
+	// frame of a verified function with a `modifies` list: component-level check
+	if t.con != nil && !t.con.Assumed && !t.con.Pure && len(t.con.Modifies) > 0 {
+		if comps, ok := t.modifiesComps(fn, t.con); ok {
+			t.allowedMods = map[string]bool{}
+			for _, c := range comps {
+				t.allowedMods[c] = true
+			}
+		} else {
+			t.note("modifies list not resolvable to heap components: frame of this function is not checked")
+		}
+	}
 	for _, li := range t.loops {
 		t.loopMods(li)
 	}
@@ -1679,9 +1691,12 @@ func (t *FnTrans) modifiesComps(callee *ssa.Function, con *Contract) ([]string, 
 		case strings.HasPrefix(item, "ghostseq("):
 			res = append(res, "GA."+strings.Trim(strings.TrimSuffix(strings.TrimPrefix(item, "ghostseq("), ")"), "\" "))
 		case strings.HasPrefix(item, "ghostat("):
-			i := strings.Index(item, "\"")
 			j := strings.LastIndex(item, "\"")
-			if i < 0 || j <= i {
+			if j <= 0 {
+				return nil, false
+			}
+			i := strings.LastIndex(item[:j], "\"")
+			if i < 0 {
 				return nil, false
 			}
 			res = append(res, "GA."+item[i+1:j])
@@ -1703,36 +1718,44 @@ func (t *FnTrans) modifiesComps(callee *ssa.Function, con *Contract) ([]string, 
 			default:
 				return nil, false
 			}
-		case strings.Count(item, ".") == 1 && !strings.ContainsAny(item, "()[]*"):
+		case strings.Count(item, ".") >= 1 && !strings.ContainsAny(item, "()[]*"):
 			parts := strings.Split(item, ".")
-			pt := paramType(parts[0])
-			if pt == nil {
+			cur := paramType(parts[0])
+			if cur == nil {
 				return nil, false
 			}
-			ptr, ok := pt.Underlying().(*types.Pointer)
-			if !ok {
-				return nil, false
-			}
-			st, ok := ptr.Elem().Underlying().(*types.Struct)
-			if !ok {
-				return nil, false
-			}
-			found := false
-			for i := 0; i < st.NumFields(); i++ {
-				if st.Field(i).Name() == parts[1] {
-					found = true
-					base := "F." + typeKey(ptr.Elem()) + "." + parts[1]
-					cds := t.flatComps(st.Field(i).Type())
-					if cds == nil {
-						return nil, false
-					}
-					for _, cd := range cds {
-						res = append(res, base+cd.suffix)
-					}
+			for pi := 1; pi < len(parts); pi++ {
+				var sty types.Type
+				if ptr, ok := cur.Underlying().(*types.Pointer); ok {
+					sty = ptr.Elem()
+				} else {
+					sty = cur
 				}
-			}
-			if !found {
-				return nil, false
+				st, ok := sty.Underlying().(*types.Struct)
+				if !ok {
+					return nil, false
+				}
+				found := false
+				for i := 0; i < st.NumFields(); i++ {
+					if st.Field(i).Name() != parts[pi] {
+						continue
+					}
+					found = true
+					if pi == len(parts)-1 {
+						base := "F." + typeKey(sty) + "." + parts[pi]
+						cds := t.flatComps(st.Field(i).Type())
+						if cds == nil {
+							return nil, false
+						}
+						for _, cd := range cds {
+							res = append(res, base+cd.suffix)
+						}
+					}
+					cur = st.Field(i).Type()
+				}
+				if !found {
+					return nil, false
+				}
 			}
 		default:
 			return nil, false
